@@ -84,6 +84,10 @@ GenericBlockViol(e, adm0) ==
      \cup (IF C14_NonNegative(e.bal, e.negative) THEN {}
            ELSE {<<"C14_NonNegative", {[k |-> txs[i].k, amt |-> txs[i].amtKind] : i \in 1..n}>>})
      \cup (IF lost <= n * (Cardinality(adm) - 1) THEN {} ELSE {<<"C14_FeeRounding", lost>>})
+     \* a failed transaction may cost its sender the fee, and the fee is what the admins receive: value that leaves the
+     \* sender of a failed transaction and reaches nobody is an effect beyond nonce and fee
+     \cup (IF one /\ e.nrec = 1 /\ t.status = "FAILED" /\ lost > Cardinality(adm) - 1
+           THEN {<<"C07_OnlyNonceAndFee", [lost |-> lost, k |-> t.k, m |-> t.m]>>} ELSE {})
      \cup (IF one /\ e.nrec = 1 /\ t.k = "transfer" /\ t.status = "SUCCESS" /\ t.amtKind = "num"
               /\ ~C14_TransferExact(e.pre, e.bal, adm, t.from, t.to, t.amtNum)
            THEN {<<"C14_TransferExact", [amt |-> t.amtNum, self |-> t.from = t.to]>>} ELSE {})
